@@ -37,7 +37,7 @@ TUnit ==
     /\ IsEvent("Unit")
     /\ LET e == Ev  s == Ev.s  k == Ev.kind IN
        \/ k = "Sid" /\ SidOK(e.b2, e.f, e.dollarLast) /\ HsLine(s, k, FALSE)
-       \/ k \in {"Fw", "Pq", "Pr"} /\ HsLine(s, k, FALSE)
+       \/ k \in {"Fw", "Pq", "Pr", "Pm"} /\ HsLine(s, k, FALSE)
        \/ k \in {"Text", "Comment"} /\ HsLine(s, k, e.prompt)
        \/ k = "Err" /\ HsLine(s, "Text", FALSE)      \* "*** MTD Stats ..." lines in a MOTD are text, not errors
        \/ k \in {"Comment", "Pm", "Err"} /\ Chatter(s, k)
